@@ -31,7 +31,15 @@ def main():
         return 2
     try:
         if args.replay:
-            return mod.replay(ctx, args.replay)
+            if hasattr(mod, "replay"):
+                return mod.replay(ctx, args.replay)
+            # generic replay: every run is a deterministic function of (tier, seed); re-run with the recorded pair
+            import json
+            rp = Path(args.replay)
+            if not rp.is_absolute():
+                rp = core.ROOT / rp
+            rec = json.loads(rp.read_text())
+            ctx = core.Ctx(pid, rec.get("tier", args.tier), int(rec.get("seed", seed)))
         mod.run(ctx)
         return core.finish(ctx)
     except Exception:
